@@ -106,6 +106,7 @@ type c14Case struct {
 	PreParse bool     `json:"program_parsed_once,omitempty"`
 	K        int      `json:"k,omitempty"` // manual example number
 	Source   string   `json:"source,omitempty"`
+	Ops      []int    `json:"ops,omitempty"` // mode seq: operations applied in turn to ONE text value
 }
 
 func c14ArgEnc(v zn.V) string {
@@ -406,6 +407,161 @@ func c14Seps() [][]rune {
 		}
 	}
 	return out
+}
+
+// ------------------------------------------------------------------ sub-check 4: operation sequences on one text value
+
+var c14SeqTexts = []string{"2*10^3", "3*^2", "é*10^2", "12", "é你😀", " 4*10^1"}
+
+var c14SeqOps = []struct {
+	name string
+	stmt string // end-to-end form, applied to the variable X
+	do   func(s *value.String) (r.Element, error)
+}{
+	{"长度", "X之长度", func(s *value.String) (r.Element, error) { return s.GetProperty("长度") }},
+	{"字符组", "X之字符组", func(s *value.String) (r.Element, error) { return s.GetProperty("字符组") }},
+	{"取样", "以X（取样：1、1）", func(s *value.String) (r.Element, error) {
+		return s.ExecMethod("取样", []r.Element{value.NewNumber(1), value.NewNumber(1)})
+	}},
+	{"转换数值", "以X（转换数值）", func(s *value.String) (r.Element, error) { return s.ExecMethod("转换数值", nil) }},
+	{"去除空格", "以X（去除空格）", func(s *value.String) (r.Element, error) { return s.ExecMethod("去除空格", nil) }},
+	{"拼接", "以X（拼接：“z”）", func(s *value.String) (r.Element, error) {
+		return s.ExecMethod("拼接", []r.Element{value.NewString("z")})
+	}},
+	{"分隔", "以X（分隔：“*”）", func(s *value.String) (r.Element, error) {
+		return s.ExecMethod("分隔", []r.Element{value.NewString("*")})
+	}},
+	{"替换", "以X（替换：“1”、“7”）", func(s *value.String) (r.Element, error) {
+		return s.ExecMethod("替换", []r.Element{value.NewString("1"), value.NewString("7")})
+	}},
+}
+
+// c14SeqConsistent: 长度, 字符组 and 取样 of the value all describe the text the value holds NOW.
+func c14SeqConsistent(cur string, gl, gc, gs c14Got) (string, string) {
+	t := []rune(cur)
+	if gl.panic != "" || gc.panic != "" || gs.panic != "" {
+		return "no crash", "panic: " + gl.panic + gc.panic + gs.panic
+	}
+	n, ok := gl.elem.(*value.Number)
+	if gl.err != "" || !ok || n == nil || n.GetValue() != float64(len(t)) {
+		return fmt.Sprintf("长度 = %d, the number of characters of the text %q the value now holds", len(t), cur), gl.err + c14ShowN(gl.elem)
+	}
+	chars, ok := c14Strings(gc.elem)
+	want := make([]string, len(t))
+	for i, ch := range t {
+		want[i] = string(ch)
+	}
+	if gc.err != "" || !ok || len(chars) != len(want) || strings.Join(chars, "\x00") != strings.Join(want, "\x00") {
+		return fmt.Sprintf("字符组 = %q, the characters of the text %q the value now holds", want, cur), gc.err + c14ShowN(gc.elem)
+	}
+	if len(t) > 0 {
+		str, ok := gs.elem.(*value.String)
+		if gs.err != "" || !ok || str == nil || str.GetValue() != cur {
+			return fmt.Sprintf("取样：1、长度 = the whole text %q", cur), gs.err + c14ShowN(gs.elem)
+		}
+	}
+	return "", ""
+}
+
+func c14ShowN(e r.Element) string {
+	if e == nil {
+		return ""
+	}
+	return c14Show(e)
+}
+
+func c14SeqOf(k int64) []int {
+	// k enumerates sequences of length 0..3 over the operations, shortest first
+	nOps := int64(len(c14SeqOps))
+	n := 0
+	for k >= pow64(int(nOps), n) {
+		k -= pow64(int(nOps), n)
+		n++
+	}
+	ops := make([]int, n)
+	for i := range ops {
+		ops[i] = int(k % nOps)
+		k /= nOps
+	}
+	return ops
+}
+
+func c14SeqCount() int64 {
+	t := int64(0)
+	for n := 0; n <= 3; n++ {
+		t += pow64(len(c14SeqOps), n)
+	}
+	return t
+}
+
+// c14Seq applies ops in turn to one text value and, after every step, compares
+// 长度 / 字符组 / 取样 with the text the value holds at that moment.
+func c14Seq(text string, ops []int, e2e bool) *mc.Failure {
+	cs := func(src string) json.RawMessage {
+		return mc.J(c14Case{Mode: "seq", E2E: e2e, Text: toInts([]rune(text)), Shown: text, Ops: ops, Source: src})
+	}
+	names := func(upto int) string {
+		var ns []string
+		for _, o := range ops[:upto] {
+			ns = append(ns, c14SeqOps[o].name)
+		}
+		return strings.Join(ns, " → ")
+	}
+	if !e2e {
+		var f *mc.Failure
+		func() {
+			defer func() {
+				if p := recover(); p != nil {
+					f = &mc.Failure{Kind: "panic", Bucket: "seq:panic", Case: cs(""), Observed: fmt.Sprint(p)}
+				}
+			}()
+			s := value.NewString(text)
+			for i := 0; i <= len(ops); i++ {
+				if i > 0 {
+					_, _ = c14SeqOps[ops[i-1]].do(s)
+				}
+				cur := s.GetValue()
+				n := len([]rune(cur))
+				gl := c14Direct(func() (r.Element, error) { return s.GetProperty("长度") })
+				gc := c14Direct(func() (r.Element, error) { return s.GetProperty("字符组") })
+				gs := c14Direct(func() (r.Element, error) {
+					return s.ExecMethod("取样", []r.Element{value.NewNumber(1), value.NewNumber(float64(n))})
+				})
+				if exp, obs := c14SeqConsistent(cur, gl, gc, gs); exp != "" {
+					f = &mc.Failure{Kind: "mismatch", Bucket: "seq:stale", Case: cs(""), Expected: "after " + names(i) + ": " + exp, Observed: obs}
+					return
+				}
+			}
+		}()
+		return f
+	}
+	var b strings.Builder
+	fmt.Fprintf(&b, "令X = “%s”\n", zn.EncodeStr(text))
+	for i, o := range ops {
+		fmt.Fprintf(&b, "令R%d = %s\n", i+1, c14SeqOps[o].stmt)
+	}
+	b.WriteString("令N = X之长度\n令W = X\n如果N == 0：\n    输出【X，N，X之字符组，“”】\n输出【X，N，X之字符组，以X（取样：1、N）】")
+	src := b.String()
+	g := c14Real(src, nil)
+	if g.panic != "" {
+		return &mc.Failure{Kind: "panic", Bucket: "seq:panic", Case: cs(src), Observed: g.panic}
+	}
+	if g.err != "" {
+		return nil // one of the operations is not applicable to this text (e.g. 转换数值 of a non-number)
+	}
+	arr, ok := g.elem.(*value.Array)
+	if !ok || arr == nil || len(arr.GetValue()) != 4 {
+		return &mc.Failure{Kind: "mismatch", Bucket: "seq:shape", Case: cs(src), Expected: "a list of four", Observed: c14Show(g.elem)}
+	}
+	it := arr.GetValue()
+	x, ok := it[0].(*value.String)
+	if !ok || x == nil {
+		return &mc.Failure{Kind: "mismatch", Bucket: "seq:shape", Case: cs(src), Expected: "X is a text", Observed: c14Show(it[0])}
+	}
+	if exp, obs := c14SeqConsistent(x.GetValue(), c14Got{elem: it[1]}, c14Got{elem: it[2]}, c14Got{elem: it[3]}); exp != "" {
+		return &mc.Failure{Kind: "mismatch", Bucket: "seq:stale", Case: cs(src), Expected: "after " + names(len(ops)) + ": " + exp, Observed: obs}
+	}
+	return nil
 }
 
 // ------------------------------------------------------------------ reference scanner (manual chapter 6)
@@ -1079,9 +1235,10 @@ func init() {
 	mc.Register(&mc.Check{
 		ID:    "C14",
 		Level: "exploration",
-		Rule: "E1 exhaustive, three sub-checks. (1) every text of <= 3 characters over {a é 你 😀 U+0301} (1-4 byte encodings and a combining mark) x every (i,j) in [-5,5]^2 for 取样, through the real text value and end to end through a program, plus 长度/字符组 against the code points and 分隔 by every 1..2-character separator; " +
+		Rule: "E1 exhaustive, four sub-checks. (1) every text of <= 3 characters over {a é 你 😀 U+0301} (1-4 byte encodings and a combining mark) x every (i,j) in [-5,5]^2 for 取样, through the real text value and end to end through a program, plus 长度/字符组 against the code points and 分隔 by every 1..2-character separator; " +
 			"(2) every template of <= L symbols (L=6 quick, 7 thorough) over {x 你 { } # + . 2 0 % E} x every argument list of length p-1, p, p+1 over {-3.14159, “s”} (all tuples for p<=2, four covering tuples per length beyond), real `T % A` vs a reference scanner written from manual chapter 6 (templates of <= 4 symbols through Interpreter.Execute both as input variables and as string literals; longer ones on the same two-line program parsed once, fresh VM per case); " +
 			"(3) 183 directive bodies (the 5 documented forms, every undocumented combination of + .N E %, 27 malformed ones) with N in 0..20, 99, 10^19, 10^20-1 x 55 boundary doubles (3 of them non-finite) vs Python %-formatting, plus every well-formed directive on 6 non-number arguments and the 10 examples of manual chapter 6 run from source. " +
+			"(4) every sequence of <= 3 operations over {长度, 字符组, 取样, 转换数值, 去除空格, 拼接, 分隔, 替换} applied to ONE text value (6 texts, on the real value and end to end): after every step 长度, 字符组 and 取样：1、长度 must describe the text the value holds at that moment. " +
 			"Enumerations are rank/unrank (every case distinct). Non-trivial: (1) the text has a multi-byte character, (2) the template contains a brace, (3) the double is finite.",
 		Assumptions: []string{
 			"a character is a Unicode code point (长度 counts code points; the combining mark U+0301 is a character of its own)",
@@ -1170,6 +1327,31 @@ func c14Run(c *mc.Ctx) {
 	}
 	base += int64(len(texts))
 	c.Bound("chars_texts_len_le_3_alphabet_5_x_index_pairs_121", fmt.Sprintf("complete: %d texts x 121 (i,j) x {real value, end to end}; %d separators", len(texts), len(seps)))
+
+	// ---------------- sub-check 4: operation sequences on one text value
+	{
+		nseq := c14SeqCount()
+		total := nseq * int64(len(c14SeqTexts))
+		sb := base
+		c.Describe = func(idx int64) json.RawMessage {
+			k := idx - sb
+			return mc.J(c14Case{Mode: "seq", Text: toInts([]rune(c14SeqTexts[k/nseq])), Shown: c14SeqTexts[k/nseq], Ops: c14SeqOf(k % nseq)})
+		}
+		for k := int64(0); k < total; k++ {
+			if !c.Mine(base + k) {
+				continue
+			}
+			c.CaseIdx(base + k)
+			text, ops := c14SeqTexts[k/nseq], c14SeqOf(k%nseq)
+			for _, e2e := range []bool{false, true} {
+				fail(c14Seq(text, ops, e2e))
+				c.Eval(len(ops) >= 2)
+				c.Stat("op_sequence_cases", 1)
+			}
+		}
+		base += total
+		c.Bound("op_sequences_len_le_3_ops_8_texts_6", "complete")
+	}
 
 	// ---------------- oracle
 	tb := c14Table{}
@@ -1362,6 +1544,13 @@ func c14Replay(c *mc.Ctx, raw json.RawMessage) {
 		fail(c14Len(t, cs.E2E))
 	case "split":
 		fail(c14Split(t, toRunes(cs.Sep), cs.E2E))
+	case "seq":
+		if cs.Source == "" && !cs.E2E {
+			fail(c14Seq(string(t), cs.Ops, false))
+			fail(c14Seq(string(t), cs.Ops, true))
+		} else {
+			fail(c14Seq(string(t), cs.Ops, cs.E2E))
+		}
 	case "text-all":
 		for _, e2e := range []bool{false, true} {
 			fail(c14Len(t, e2e))
